@@ -37,8 +37,13 @@ impl DiagnosticAction {
     }
 
     pub fn is_match(&self, is_disable: bool, range: &TextRange, code: &DiagnosticCode) -> bool {
-        if self.range.intersect(*range).is_none() {
-            return false;
+        match self.range.intersect(*range) {
+            None => return false,
+            // Ranges that merely touch share no character: a diagnostic that starts exactly
+            // where the scope ends (e.g. at column 0 of the line after a `disable-next-line`
+            // or `disable-line` scope) is outside the scope.
+            Some(common) if common.is_empty() && !range.is_empty() => return false,
+            Some(_) => {}
         }
 
         match (&self.kind, is_disable) {
